@@ -295,7 +295,11 @@ def discharge(obls, want_models=True, t_z3=10, t_cvc5=20, both=False, jobs=None)
 
     def work(i):
         o, text = obls[i], texts[i]
-        r = solve_text(text, want_models and o.expect == 'valid', t_z3, t_cvc5, both, workdir=d)
+        if o.expect == 'sat':
+            # vacuity covers: cheap budget; an undecided cover is not a failure
+            r = solve_text(text, False, 3, 3, False, workdir=d)
+        else:
+            r = solve_text(text, want_models, t_z3, t_cvc5, both, workdir=d)
         v = r['verdict']
         res = {'backend': r['backend'], 'time': r['time'], 'tried': r['tried'],
                'smt_bytes': len(text)}
